@@ -300,6 +300,12 @@ Theorem C07_subkey_check_complete_partial : forall (E : EdOps) (LW : EdLaws E) (
                get_spend_public_key Hs v S idx' = Ok Sidx.
 Proof. intros E LW Hs. exact (checker_check_complete Hs). Qed.
 
+(* the key-acceptance predicate that the scan hands to the extra-field parser (raw_try_parse valid_pk_b in every statement above) is
+   exactly PublicKey::from_slice acceptance *)
+Theorem C07_extra_key_acceptance : forall (E : EdOps) k, valid_pk_b k = true <-> pk_from_slice k = Ok k.
+Proof. intros E. exact valid_pk_b_iff. Qed.
+
+Check C07_extra_key_acceptance : forall (E : EdOps) k, valid_pk_b k = true <-> pk_from_slice k = Ok k.
 Check C07_table_lookup_is_last_insert : forall (E : EdOps) (t : table) k i,
   lookup t k = Some i <-> exists pre post, t = pre ++ (k, i) :: post /\ forall j, ~ In (k, j) post.
 Check C07_subkey_check_is_check_key : forall (E : EdOps) (Hs : hs_fun) (Hb : bytes -> bytes) t v S i am P K, pk_from_slice P = Ok P ->
@@ -317,6 +323,7 @@ Check C07_subkey_check_complete_partial : forall (E : EdOps) (LW : EdLaws E) (Hs
   exists idx', checker_check Hs t v S i P K = Ok (Some idx') /\ in_ranges a b c d idx' /\
                get_spend_public_key Hs v S idx' = Ok Sidx.
 
+Print Assumptions C07_extra_key_acceptance.
 Print Assumptions C07_table_lookup_is_last_insert.
 Print Assumptions C07_subkey_check_is_check_key.
 Print Assumptions C07_subkey_check_sound_partial.
